@@ -93,8 +93,7 @@ theorem TextOk.nodigit {t : Tok} {s : Str} (ht : isLI t = true) (h : TextOk t s)
     have h2 : c ≠ '+' := by rintro rfl; exact h43 rfl
     cases t with
     | ident i =>
-      have hsrc : scanIdent E (c :: s0) = some (i, []) := lexOne_src ha
-      rcases isIdentStart_imp c (scanIdent_inv hsrc).1 with e | e
+      rcases src_ident_letter (lexOne_src ha) with e | e
       · exact hnl e
       · exact h95 e
     | lit k v =>
